@@ -230,3 +230,109 @@ def sublists(n):
     for k in range(2, n + 1):
         res += list(itertools.permutations(range(n), k))
     return res
+
+
+# ---------------------------------------------------------------------------
+# MTBDD (I64 terminals)
+# ---------------------------------------------------------------------------
+MT_VALUES = ["0", "1", "-1", "2", "3", "-7", str(-2**63), str(2**63 - 1), "+inf", "-inf", "nan"]
+MT_OPS = ["ADD", "SUB", "MUL", "DIV", "MIN", "MAX"]
+
+
+def mt_case_pairs_1var(cid, op, order_swapped=False):
+    """all 121 functions of one variable (over a 2-variable manager): every ordered pair"""
+    ops = ["VARS 2"]
+    if order_swapped:
+        ops.append("ORDER 1 0")
+    fs = [(a, b) for a in MT_VALUES for b in MT_VALUES]
+    for i, (a, b) in enumerate(fs):
+        ops.append(f"VT h{i} 1 {a} {b}")
+    ops.append("SNAP")
+    k = 1000
+    for i in range(len(fs)):
+        for j in range(len(fs)):
+            ops.append(f"{op} h{k} h{i} h{j}")
+            k += 1
+    ops.append("SNAP")
+    return (header(cid, "mtbdd"), ops)
+
+
+def mt_rand_vt(rng, nv):
+    style = rng.randrange(4)
+    n = 1 << nv
+    if style == 0:
+        return [rng.choice(MT_VALUES) for _ in range(n)]
+    if style == 1:  # 0-1 valued (condition-like)
+        return [rng.choice(["0", "1"]) for _ in range(n)]
+    if style == 2:  # few distinct values, shared sub-diagrams
+        vs = rng.sample(MT_VALUES, 2)
+        return [rng.choice(vs) for _ in range(n)]
+    v = rng.choice(MT_VALUES)  # almost constant
+    t = [v] * n
+    t[rng.randrange(n)] = rng.choice(MT_VALUES)
+    return t
+
+
+def mt_case_history(cid, rng, nv=None, length=60, slots=20, cache=None, reorder=True, threads=1):
+    nv = nv or rng.randrange(1, 5)
+    cache = cache if cache is not None else rng.choice([1, 2, 16, 1 << 10])
+    ops = [f"VARS {nv}"]
+    live = set()
+    conds = set()
+
+    def pick():
+        return rng.choice(sorted(live))
+
+    for _ in range(length):
+        r = rng.random()
+        d = rng.randrange(slots)
+        if len(live) < 3 or r < 0.2:
+            t = mt_rand_vt(rng, nv)
+            ops.append(f"VT h{d} {nv} " + " ".join(t))
+            live.add(d)
+            if all(x in ("0", "1") for x in t):
+                conds.add(d)
+            else:
+                conds.discard(d)
+        elif r < 0.25:
+            ops.append(f"CONSTN h{d} {rng.choice(MT_VALUES)}")
+            live.add(d); conds.discard(d)
+        elif r < 0.30:
+            ops.append(f"VAR h{d} {rng.randrange(nv)}")
+            live.add(d); conds.add(d)
+        elif r < 0.62:
+            a, b = pick(), pick()
+            # different operators on the same operands, back to back
+            seq = rng.sample(MT_OPS, rng.randrange(1, 4))
+            for o in seq:
+                dd = rng.randrange(slots)
+                ops.append(f"{o} h{dd} h{a} h{b}")
+                live.add(dd); conds.discard(dd)
+                if dd in (a, b):
+                    break
+        elif r < 0.70 and conds & live:
+            c = rng.choice(sorted(conds & live))
+            ops.append(f"ITE h{d} h{c} h{pick()} h{pick()}")
+            live.add(d); conds.discard(d)
+        elif r < 0.76:
+            pos = rng.randrange(1 << nv)
+            neg = rng.randrange(1 << nv) & ~pos
+            ops.append(f"RESTRICT h{d} h{pick()} {pos} {neg}")
+            live.add(d); conds.discard(d)
+        elif r < 0.80:
+            ops.append(f"EVAL h{pick()}")
+        elif r < 0.83:
+            ops.append(f"EQ h{pick()} h{pick()}")
+        elif r < 0.86:
+            ops.append(f"NC h{pick()}")
+        elif r < 0.91:
+            a = pick()
+            ops.append(f"DROP h{a}")
+            live.discard(a); conds.discard(a)
+        elif r < 0.95:
+            ops.append("GC")
+        elif reorder and nv >= 2:
+            vs = list(range(nv)); rng.shuffle(vs)
+            ops.append("ORDER " + " ".join(map(str, vs[: rng.randrange(2, nv + 1)])))
+    ops += ["DROPALL", "GC", "SNAP"]
+    return (header(cid, "mtbdd", cap=1 << 14, cache=cache, threads=threads, snap_each=True), ops)
